@@ -155,6 +155,90 @@ def inline_function(src, qual):
     return ast.unparse(tree)
 
 
+def mutants_of(src, qual, limit=12):
+    """Behaviour-CHANGING single-point mutants of one function (statement deleted, comparison flipped, arithmetic operator swapped,
+    boolean operator swapped, constant perturbed).  Used only to harden the analysers: a mutant may legitimately be ok / violation /
+    undecided, but must never crash a rule (`rule=internal`)."""
+    import copy as _copy
+    tree = ast.parse(src)
+    node = _find(tree, qual)
+    if node is None:
+        return []
+    sites = []
+    for n in ast.walk(node):
+        if isinstance(n, ast.Compare) and len(n.ops) == 1:
+            sites.append(("cmp", n))
+        elif isinstance(n, ast.BinOp) and isinstance(n.op, (ast.Add, ast.Sub, ast.Mult, ast.Div)):
+            sites.append(("bin", n))
+        elif isinstance(n, ast.BoolOp):
+            sites.append(("bool", n))
+        elif isinstance(n, ast.Constant) and isinstance(n.value, (int, float)) and not isinstance(n.value, bool):
+            sites.append(("const", n))
+    for holder in ast.walk(node):
+        for field in ("body", "orelse"):
+            body = getattr(holder, field, None)
+            if isinstance(body, list) and len(body) > 1:
+                for st in body:
+                    if isinstance(st, (ast.Assign, ast.Expr, ast.AugAssign, ast.If, ast.Raise)) and not (isinstance(st, ast.Expr) and isinstance(st.value, ast.Constant)):
+                        sites.append(("del", (body, st)))
+    import random as _r
+    _r.Random(hash(qual) & 0xffff).shuffle(sites)
+    out = []
+    for kind, n in sites[:limit]:
+        if kind == "cmp":
+            old = n.ops[0]
+            n.ops[0] = {ast.Lt: ast.LtE, ast.LtE: ast.Lt, ast.Gt: ast.GtE, ast.GtE: ast.Gt, ast.Eq: ast.NotEq, ast.NotEq: ast.Eq, ast.Is: ast.IsNot, ast.IsNot: ast.Is,
+                        ast.In: ast.NotIn, ast.NotIn: ast.In}.get(type(old), ast.Eq)()
+            out.append(ast.unparse(tree))
+            n.ops[0] = old
+        elif kind == "bin":
+            old = n.op
+            n.op = {ast.Add: ast.Sub, ast.Sub: ast.Add, ast.Mult: ast.Div, ast.Div: ast.Mult}[type(old)]()
+            out.append(ast.unparse(tree))
+            n.op = old
+        elif kind == "bool":
+            old = n.op
+            n.op = ast.And() if isinstance(old, ast.Or) else ast.Or()
+            out.append(ast.unparse(tree))
+            n.op = old
+        elif kind == "const":
+            old = n.value
+            n.value = old + 1
+            out.append(ast.unparse(tree))
+            n.value = old
+        elif kind == "del":
+            body, st = n
+            i = body.index(st)
+            body[i] = ast.Pass()
+            out.append(ast.unparse(tree))
+            body[i] = st
+    return out
+
+
+def one_mutant(args):
+    prop, repo, rel, qual, new = args
+    tmp = None
+    try:
+        try:
+            compile(new, rel, "exec")
+        except SyntaxError:
+            return qual, "skipped", ""
+        tmp = tempfile.mkdtemp(prefix="leaspy-mu-")
+        shutil.copytree(os.path.join(repo, "src", "leaspy"), os.path.join(tmp, "src", "leaspy"), ignore=shutil.ignore_patterns("__pycache__"))
+        open(os.path.join(tmp, rel), "w").write(new)
+        mod = importlib.import_module(f"sa.rules.{prop.lower()}")
+        status, ctx, errors = core.run_property(prop, mod.rules, tmp, "quick")
+        internal = [e for e in errors if "rule=internal" in e]
+        if internal:
+            return qual, "INTERNAL", internal[0][:300]
+        return qual, {0: "ok", 1: "violation", 2: "undecided"}[status], ""
+    except Exception as e:
+        return qual, "error", f"{type(e).__name__}: {e}"
+    finally:
+        if tmp:
+            shutil.rmtree(tmp, ignore_errors=True)
+
+
 MODE = {"rename": None, "temp": None}
 
 
@@ -216,6 +300,20 @@ def main():
             if (rel, qual) in with_ob or len(funcs) <= mx:
                 jobs.append((prop, repo, rel, qual, baseline, mode))
         jobs = jobs[:mx]
+        if mode == "mutate":
+            mj = []
+            for (_p, _r_, rel, qual, _b, _m) in jobs:
+                for new in mutants_of(open(os.path.join(repo, rel)).read(), qual):
+                    mj.append((prop, repo, rel, qual, new))
+            with ProcessPoolExecutor(max_workers=16) as ex:
+                res = list(ex.map(one_mutant, mj))
+            from collections import Counter
+            c = Counter(r[1] for r in res)
+            print(f"== {prop} [mutate]: {len(res)} mutants: {dict(c)}")
+            for q, st, msg in res:
+                if st in ("INTERNAL", "error"):
+                    print(f"   {st:10s} {q}: {msg}")
+            continue
         with ProcessPoolExecutor(max_workers=16) as ex:
             res = list(ex.map(one, jobs))
         bad = [r for r in res if r[1] in ("FALSE-ALARM", "ANALYSIS-ERROR", "error")]
